@@ -38,6 +38,9 @@ EVENT_TEXT = {
     "second-slash": "a second '/' can be emitted",
     "dangling-sep": "the result can end with a separator",
     "suffix-without-factor": "an exponent suffix is appended where no factor precedes it",
+    "leading-slash": "the '/' can be emitted with nothing before it: a pure reciprocal renders as '/s' instead of '1/s'",
+    "one-after-factor": "the reciprocal prefix '1/' can be emitted after a factor: 'm1/s'",
+    "signed-exponent": "a negative exponent is rendered with its sign after the '/'",
 }
 
 
@@ -46,6 +49,13 @@ def run(rep, ctx):
     rep.run_rule("C20.R2", "the builders emit exactly the grammar's separators and literals; both regions render exponents, unsigned in the denominator", r2_alphabet, ctx)
     rep.run_rule("C20.R3", "a simple quantity stores its category argument, that category's quantity type and the validated unit", r3_simple, ctx)
     rep.run_rule("C20.R4", "repr/str/formatted suffix of value objects show GetUnit() or the requested unit", r4_repr, ctx)
+    from . import c10
+    from ..report import borrow
+    rep.rule("C20.R7", "str()/repr() of an Array do not depend on the container kind: no truth test on the values container (shared with C10.R8)")
+    try:
+        borrow(rep, c10.r8_no_truth_test_on_values, ctx, "C10.R8", "C20.R7", keep=lambda o: ".__str__:" in o.key or ".__repr__:" in o.key or o.key == "truth-contexts-examined")
+    except AnalysisError as e:
+        rep.error("C20.R7", str(e))
     rep.run_rule("C20.R6", "a composing request is degraded to a simple quantity only when its single factor has exponent 1", r6_simple_shortcut, ctx)
     rep.run_rule("C20.R5", "derived strings are built from every entry of the composing map (no shortcut, no memo keyed by less)", r5_sources, ctx)
     rep.not_decided += [
